@@ -340,6 +340,14 @@ func (s *Store) createNextFileLOCKED() (string, File, error) {
 func (s *Store) removeFileOnClose(fref *FileRef) (os.FileInfo, error) {
 	finfo, err := fref.file.Stat()
 	if err != nil {
+		// Only the name of the file is needed to remove it later, and
+		// the store knows it even when Stat() fails; the file must not
+		// be left behind because of that.
+		if fileName := s.fileNameOf(fref); len(fileName) > 0 {
+			fref.OnAfterClose(func() {
+				go s.removeFile(fileName)
+			})
+		}
 		return nil, err
 	}
 
@@ -363,6 +371,35 @@ func (s *Store) removeFileOnClose(fref *FileRef) (os.FileInfo, error) {
 	}
 
 	return finfo, nil
+}
+
+// fileNameOf returns the name under which the store keeps the fref,
+// or "" if it is unknown to the store.
+func (s *Store) fileNameOf(fref *FileRef) string {
+	s.m.Lock()
+	defer s.m.Unlock()
+
+	for fileName, r := range s.fileRefMap {
+		if r == fref {
+			return fileName
+		}
+	}
+	return ""
+}
+
+// removeFile forgets about and deletes a closed file of the store.
+func (s *Store) removeFile(fileName string) {
+	s.m.Lock()
+	delete(s.fileRefMap, fileName)
+	s.m.Unlock()
+	err := os.Remove(path.Join(s.dir, fileName))
+	if err != nil {
+		if s.options.CollectionOptions.Log != nil {
+			s.options.CollectionOptions.Log(
+				"store: error deleting file %s, err: %v",
+				fileName, err)
+		}
+	}
 }
 
 // --------------------------------------------------------
